@@ -89,8 +89,12 @@ def _shard(arg):
         n_o = draw(st.integers(1, 30))
         n_t = draw(st.integers(1, 4))
         rad = draw(st.lists(st.integers(1, 9999), min_size=n_t, max_size=n_t, unique=True))
-        digits = draw(st.sampled_from([1, 2, 3]))
-        radii = [f"{r / 10 ** digits:.{digits}f}" for r in rad]
+        digits = draw(st.sampled_from([1, 2, 3, 3, 13]))
+        if digits == 13:  # radii that are not representable with few decimals (thirds, sevenths ...)
+            den = draw(st.sampled_from([3, 7, 30, 70, 900]))
+            radii = [f"{r / den / 10:.13f}" for r in rad]
+        else:
+            radii = [f"{r / 10 ** digits:.{digits}f}" for r in rad]
         radii = list(dict.fromkeys(radii))
         n = n_b * n_o * len(radii)
         cart = draw(st.booleans()) and n_o >= 4
@@ -107,7 +111,8 @@ def _shard(arg):
             spec = {k: case[k] for k in ("b_alg", "n_b", "o_alg", "n_o", "radii")}
             res.case(sample=case, nontrivial=case["n_b"] >= 2 and case["n_o"] >= 2 and nt >= 2, key=spec,
                      classes=[f"b={case['b_alg']}", f"o={case['o_alg']}", "cartesian" if case["cartesian"] else "spherical",
-                              f"n_t={nt}", "n_b=1" if case["n_b"] == 1 else "n_b>1"])
+                              f"n_t={nt}", "n_b=1" if case["n_b"] == 1 else "n_b>1"]
+                     + (["radii_with_13_decimals"] if any(len(r.split(".")[1]) > 6 for r in case["radii"]) else []))
             if msgs:
                 fail(case, "; ".join(msgs))
         return test
@@ -124,7 +129,7 @@ def run(tier):
     total = 480 if tier == "quick" else 8000
     res = merge_results(pmap(_shard, [(s, total // 16) for s in range(16)]))
     rule = ("Hypothesis: rotation algorithm cube4D/randomQ with n_b in {1..10,12}, direction algorithm ico/cube3D/randomS with "
-            "n_o in 1..30, 1..4 distinct positive radii as decimals (unsorted), both position modes, 1..5 index sets (None or "
+            "n_o in 1..30, 1..4 distinct positive radii as decimals with 1..3 or 13 decimals (unsorted), both position modes, 1..5 index sets (None or "
             "lists of up to 20 in-range indices with repeats, passed as list and as array). Non-trivial = n_b, n_o, n_t all "
             ">= 2; distinct = distinct grid specification.")
     return res, rule, {"assumptions": ["component grids come from separately constructed sphere-grid objects (their own "
